@@ -4,6 +4,7 @@ import itertools
 
 from core import fseq, fseqs, fbool, fcells, pseq, pseqs, pcells, guarded
 import meshlib as ml
+import used
 
 PROP = "C06"
 RULE = ("exhaustive: every pair of mesh patterns (nu, mu) with |nu|<=1, |mu|<=2 over ALL shadings, and every index "
@@ -34,15 +35,58 @@ def worker_init():
     c03.worker_init()
 
 
+def _warm(m):
+    """use a mesh pattern before the call under test: the generic warm-up (hash, abandoned listings of its
+    occurrences in permutations) plus the neighbouring C06 queries on the SAME object: induced sub-patterns on
+    other point sets, region tests, an abandoned listing of a one-point pattern inside it"""
+    used.warm_mesh(m, 1)
+    n = len(m.pattern)
+    if not used.is_perm(m.pattern):
+        return
+    used.quiet(lambda: m.sub_mesh_pattern(range(n)))
+    used.quiet(lambda: m.sub_mesh_pattern(range(0, n, 2)))
+    used.quiet(lambda: m.sub_mesh_pattern((n - 1,)))
+    used.quiet(lambda: m.is_shaded((0, 0), (n, n)))
+    used.quiet(lambda: m.is_pointfree((0, 0), (1, n)))
+    used.sip(lambda: MeshPatt(Perm((0,)), [(0, 0)]).occurrences_in(m))
+    used.quiet(lambda: m.contains(Perm((0,))))
+
+
+_HEAVY = [False]
+
+
 def _mesh(p, c):
-    return MeshPatt(Perm(pseq(p)), pcells(c))
+    return used.obj(("M", p, c), lambda: MeshPatt(Perm(pseq(p)), pcells(c)), _warm if _HEAVY[0] else None)
 
 
 def _fsub(m):
     return "%s/%s" % (fseq(m.pattern), fcells(m.shading))
 
 
+def _occ(make):
+    """a complete listing, computed while a second listing of the same call on the same objects is only
+    partially consumed; both must be equal"""
+    if not _HEAVY[0]:
+        return fseqs(make())
+    full, pieced = used.interleaved(make)
+    return fseqs(full) if full == pieced else used.unstable(fseqs(full), fseqs(pieced))
+
+
 def impl(op, a):
+    import c03
+    used.begin()
+    # a deterministic fifth of the lines gets the used-object treatment (warm-up, interleaved listings, second
+    # evaluation on the same objects); the others are evaluated once on fresh objects as before
+    _HEAVY[0] = c03._HEAVY[0] = used.sel(op, a, 5)   # (the mixed items of mmcontains / mmavoids are built by c03)
+    r1 = _impl(op, a)
+    if not _HEAVY[0]:
+        return r1
+    used.T.rewind()
+    r2 = _impl(op, a)             # the same call once more, on the same (now used) objects
+    return r1 if r1 == r2 else used.unstable(r1, r2)
+
+
+def _impl(op, a):
     import c03
     if op in ("submesh", "submeshS"):
         return guarded(lambda: _fsub(_mesh(a[0], a[1]).sub_mesh_pattern(pseq(a[2]))))
@@ -53,9 +97,10 @@ def impl(op, a):
     if op == "ispointfree":
         return guarded(lambda: fbool(_mesh(a[0], a[1]).is_pointfree((int(a[2]), int(a[3])), (int(a[4]), int(a[5])))))
     if op in ("meshin", "meshinS", "meshinS6"):
-        return guarded(lambda: fseqs(_mesh(a[0], a[1]).occurrences_in(_mesh(a[2], a[3]))))
+        return guarded(lambda: (lambda q, m: _occ(lambda: q.occurrences_in(m)))(_mesh(a[0], a[1]), _mesh(a[2], a[3])))
     if op == "permin":
-        return guarded(lambda: fseqs(Perm(pseq(a[0])).occurrences_in(_mesh(a[1], a[2]))))
+        return guarded(lambda: (lambda q, m: _occ(lambda: q.occurrences_in(m)))(
+            used.obj(("P", a[0]), lambda: Perm(pseq(a[0])), used.warm_perm if _HEAVY[0] else None), _mesh(a[1], a[2])))
     if op == "mmcontains":
         return guarded(lambda: fbool(_mesh(a[0], a[1]).contains(*c03._items(a[2]))))
     if op == "mmavoids":
